@@ -601,7 +601,7 @@ PROPS = {
     ),
     "C15": dict(
         module="YkProps.C15",
-        leancheck=["YkModel.Conf", "YkModel.ConfSpec", "YkProofs.Conf", "YkProofs.ConfLimits", "YkProofs.ConfMain", "YkProofs.ConfOrder", "YkProofs.ConfRules", "YkProps.C15"],
+        leancheck=["YkModel.Conf", "YkModel.ConfSpec", "YkProofs.Conf", "YkProofs.ConfLimits", "YkProofs.ConfMain", "YkProofs.ConfOrder", "YkProofs.ConfRules", "YkProofs.ConfPerm", "YkProps.C15"],
         runs=[dict(comp="conf", quick=4000, thorough=80000)],
         classify=cls_conf,
         nontrivial=lambda line: '"decodeErr"' not in line,
@@ -625,7 +625,7 @@ PROPS = {
                    "the own and every ancestor's maximum, children's guaranteed sums within the parent's guaranteed and within every maximum above (exact below MaxInt64; the saturating sum is modelled), max-applications set and "
                    "non-increasing below a queue that sets it, limits within the queue maximum / application count and within every entry of the same name on every ancestor (wildcard entries when no ancestor names the user or group); "
                    "every resource map validation parsed parses again at load time, so a load can only fail for the root name, an ACL, a child template or a placement rule, and succeeds under the hypotheses excluding these; "
-                   "a single canonical-spelling fixed rule that was accepted resolves at run time; NewResourceFromConf and the resource comparison are independent of map order. "
+                   "a single canonical-spelling fixed rule that was accepted resolves at run time; validate gives the same verdict and the same error class for any two configurations that differ only in the order of the entries of their map-typed fields (resource maps of queues, limits and templates, properties, weights; unique keys), for every family of permutations — only the message of a rejected resource map follows the walk order when two entries offend (machine-checked witness; same on the real validator). "
                    "The unrestricted loadability statement, 'placement rules resolvable' and the stricter readings of the limit rules are refuted by machine-checked accepted configurations (known findings). "
                    "Tie: correspondence of model and real validator (verdict, error class, rewritten tree, under re-ordered mappings), of the load predicates with NewClusterContext / UpdateRMSchedulerConfig, of the static-rule "
                    "clause with PartitionContext.AddApplication, and every proved clause evaluated on every accepted tree; the five regular expression literals and the rule / policy names are re-extracted from the source on every run (T5).",
